@@ -1,4 +1,5 @@
 """C03 schedules part: a single abort arriving at any moment, group teardown must still run exactly once."""
+from vf import common
 from vf.harness import c04
 from vf.sched import explore
 
@@ -29,6 +30,7 @@ def check(cfg):
 def configs(tier):
   if tier == 'quick':
     return [(('group', 1, 'thread', 'wide'), 0), (('nested_main', 1, 'thread', 'wide'), 0), (('nested_td', 1, 'thread', 'wide'), 0),
+            (('group_deaf', 1, 'thread', 'main'), 0),
             (('group_in_subtest', 1, 'thread', 'wide'), 0), (('group', 1, 'thread', 'main'), 1), (('group', 1, 'sigint', 'free'), 0)]
   return [(('group', 1, 'thread', 'all'), 1), (('nested_main', 1, 'thread', 'all'), 1), (('nested_td', 1, 'thread', 'all'), 1),
           (('group_in_subtest', 1, 'thread', 'all'), 1), (('group', 1, 'thread', 'body'), 2), (('nested_main', 1, 'thread', 'body'), 2),
@@ -36,6 +38,7 @@ def configs(tier):
 
 
 def run_into(rep, tier):
+  explore.set_plan(common.thorough_budget(tier), len(configs(tier)))
   for cfg, bound in configs(tier):
     r = explore.explore('C03:%r' % (cfg,), lambda ch, cfg=cfg: c04.execute(cfg, ch), check(cfg), bound,
                         cap=30000 if tier == 'quick' else 400000)
